@@ -41,9 +41,16 @@ lane() {
     git -C $wt checkout -q -- . ; git -C $wt clean -fdq
     git -C $wt apply "$V/$d/patch.diff" || { echo "$id: patch does not apply" >> $OUT; continue; }
     line="$id [$(python3 -c 'import json,sys;print(json.load(open(sys.argv[1]))["breaks_property"])' $d/meta.json)]"
-    for p in $(props_for $d/patch.diff); do
+    tgt=$(python3 -c 'import json,sys;print(json.load(open(sys.argv[1]))["breaks_property"])' $d/meta.json)
+    all=$(props_for $d/patch.diff)
+    # the check of the property the author named goes first; with FIRSTHIT=1 the remaining checks are skipped
+    # once one check has reported a VIOLATION (enough to know the change is caught, and by what)
+    ordered="$tgt $(echo $all | tr ' ' '\n' | grep -v "^$tgt\$" | tr '\n' ' ')"
+    hit=0
+    for p in $ordered; do
+      if [ "$FIRSTHIT" = "1" ] && [ $hit -eq 1 ]; then line="$line $p:skipped"; continue; fi
       timeout 1500 ./check $p $T -workers $W > matrix_logs/${id}_$p.log 2>&1; rc=$?
-      if [ $rc -eq 1 ]; then line="$line $p:VIOLATION"; elif [ $rc -ne 0 ]; then line="$line $p:inconclusive"; else line="$line $p:-"; fi
+      if [ $rc -eq 1 ]; then line="$line $p:VIOLATION"; hit=1; elif [ $rc -ne 0 ]; then line="$line $p:inconclusive"; else line="$line $p:-"; fi
     done
     echo "$line" | tee -a $OUT
   done
